@@ -683,6 +683,39 @@ def rule_metadata_from_the_given_type(repo: Repo, rep, rule: str = "R14.11") -> 
                              for c in ast.walk(val))
                 if unwrap:
                     hit = hit or st
+    if n_loops == 0:
+        # the classification loop was moved into a helper that receives the members (`a, b, c = _partition_union_variants(args)`)
+        def _from_get_args(e: ast.AST) -> bool:
+            ei = L.inline(e, stop=tuple(L.params))
+            if any(isinstance(c, ast.Call) and (dotted(c.func) or "").endswith("get_args") for c in ast.walk(ei)):
+                return True
+            def _is_members_call(c: ast.AST) -> bool:
+                if not isinstance(c, ast.Call):
+                    return False
+                if (dotted(c.func) or "").endswith("get_args"):
+                    return True
+                h0 = conv.functions.get(c.func.id) if isinstance(c.func, ast.Name) else None  # a helper that returns the members (`return get_args(...)`)
+                rets = [r for r in own_nodes(h0.node) if isinstance(r, ast.Return) and r.value is not None] if h0 is not None else []
+                return bool(rets) and all(isinstance(r.value, ast.Call) and (dotted(r.value.func) or "").endswith("get_args") for r in rets)
+
+            return isinstance(e, ast.Name) and any(_is_members_call(c) for _, v, _ in L.defs.get(e.id, []) if v is not None for c in ast.walk(v))
+
+        for c in calls_in(fn.node):
+            h = conv.functions.get(c.func.id) if isinstance(c.func, ast.Name) else None
+            if h is None or h is su:
+                continue
+            for i_, a_ in enumerate(c.args):
+                if i_ < len(h.params) and _from_get_args(a_):
+                    hp = h.params[i_]
+                    for lp in own_nodes(h.node):
+                        if isinstance(lp, ast.For) and isinstance(lp.target, ast.Name) and isinstance(lp.iter, ast.Name) and lp.iter.id == hp:
+                            n_loops += 1
+                            v = lp.target.id
+                            for st in ast.walk(lp):
+                                if isinstance(st, ast.Assign) and any(isinstance(t, ast.Name) and t.id == v for t in st.targets) and any(
+                                        (isinstance(x, ast.Call) and (dotted(x.func) or "").endswith("get_args") and x.args and isinstance(x.args[0], ast.Name) and x.args[0].id == v)
+                                        or (isinstance(x, ast.Attribute) and x.attr in ("__args__", "__origin__") and isinstance(x.value, ast.Name) and x.value.id == v) for x in ast.walk(st.value)):
+                                    hit = hit or st
     rep.require(n_loops >= 1, f"{rule}: no loop over the members (`get_args(...)`) of the union found in _structure_union (anchor)")
     if hit is not None:
         rep.violation(rule, sub2, f"{su.fq}|member-unwrapped",
